@@ -201,6 +201,12 @@ func run(c Case) (res vh.Result) {
 		return
 	}
 	if cerr != nil {
+		if strings.Contains(cerr.Error(), "deployment timed out") {
+			// the tasks did not come up in time (machine under heavy load): the channel resolution was never reached
+			res.Inconclusive = "deployment did not finish: " + cerr.Error()
+			simworld.Discard()
+			return
+		}
 		return fail("creation-failed", "all channel targets are resolvable, yet creation failed: %v", cerr)
 	}
 	defer w.Destroy(env.Id, true, true, false, 30*time.Second)
